@@ -375,7 +375,9 @@ class Collection:
         self, coll: str, rest: str, ours: Dict[str, Any]
     ) -> Tuple[str, Dict[str, Any]]:
         task, config = self.collections[coll].task_with_config(rest)
-        return task, dict(config, **ours)
+        # Recursive merge, so inner settings survive inside sections which
+        # outer collections also configure (outer still wins on conflict.)
+        return task, merge_dicts(config, ours)
 
     def task_with_config(
         self, name: Optional[str]
